@@ -276,6 +276,7 @@ KeyGen::KeyGen(Rng &rr) : r(rr)
 	static const int alph[] = { 1, 2, 3, 4, 16, 26, 256, 256 };
 	alphabet = alph[r.below(8)];
 	family = (int)r.below(7);
+	if (r.chance(1, 40)) family = 7;	// a few very long keys (>= 16 KiB: 3-byte length varints)
 }
 static char abyte(Rng &r, int alphabet)
 {
@@ -294,6 +295,11 @@ Bytes KeyGen::key()
 	case 3: { size_t n = r.below(6); for (size_t i = 0; i < n; i++) k.push_back(abyte(r, 4)); break; }
 	case 4: { size_t n = r.below(14); for (size_t i = 0; i < n; i++) k.push_back((char)('a' + (i % 2 ? r.below(2) : 0))); break; }
 	case 5: { static const size_t sp[] = { 126, 127, 128, 129, 130, 255, 256, 300 }; k.assign(sp[r.below(8)] - 3 + r.below(4), (char)('k' + r.below(2))); size_t n = r.below(4); for (size_t i = 0; i < n; i++) k.push_back(abyte(r, alphabet)); break; }
+	case 7: {
+		if (r.chance(1, 6)) { static const size_t sp[] = { 16383, 16384, 16385, 32768, 20000 }; k.assign(sp[r.below(5)] - 2 + r.below(3), (char)('K' + r.below(2))); k.push_back(abyte(r, alphabet)); }
+		else { size_t n = r.below(12); for (size_t i = 0; i < n; i++) k.push_back(abyte(r, alphabet)); }
+		break;
+	}
 	default: { size_t n = r.below(24); for (size_t i = 0; i < n; i++) k.push_back(abyte(r, alphabet)); break; }
 	}
 	return k;
